@@ -42,6 +42,8 @@ struct Obs {
     seg0_indef_flat: Vec<f64>,
     iter_owned: Vec<Vec<f64>>,
     iter_ref: Vec<Vec<f64>>,
+    iter_owned_adapted: Vec<Vec<f64>>,
+    iter_ref_adapted: Vec<Vec<f64>>,
     empty_indef_len: usize,
     empty_int_len: usize,
 }
@@ -73,6 +75,9 @@ where
             seg0_indef_flat: seg_flat(&pw.segments[0].indefinite()),
             iter_owned: Segment::integral_iter(pw.segments.clone(), k0).map(|s| seg_flat(&s)).collect(),
             iter_ref: Segment::integral_iter_ref(pw.segments.iter(), k0).map(|s| seg_flat(&s)).collect(),
+            // the same through iterator adaptors whose size_hint lower bound is 0
+            iter_owned_adapted: Segment::integral_iter(pw.segments.clone().into_iter().filter(|_| true), k0).map(|s| seg_flat(&s)).collect(),
+            iter_ref_adapted: Segment::integral_iter_ref(pw.segments.iter().skip_while(|_| false), k0).map(|s| seg_flat(&s)).collect(),
             empty_indef_len: empty.indefinite().segments.len(),
             empty_int_len: empty.integral(k0).segments.len(),
         }
@@ -127,7 +132,7 @@ impl Prop for C11 {
         "C11"
     }
     fn rule(&self) -> String {
-        "case = (piece type: Poly0..Poly7 or Log<Poly0..Poly8> (type is part of the case), 1..=L pieces (L=8 quick, 24 thorough) with ends from positive lattices (duplicates, ends one ulp apart; shifted by 0/-1/-2.5 for polynomial pieces so that ends straddle 0), piece j's coefficients = pool of moderate numbers rotated by 3j, pool and k0.y times a common power of two (1 in 70% of cases, else 2^k with k uniform in ±250); knot k0 with x strictly inside the first piece / exactly at its end / beyond it (>0 for logs), y any; evaluation points from the list's alphabet: at every end, one ulp either side, midpoints, beyond both extremes). Oracle: per-piece exact integrals (polynomials: exact dyadic powers, 384-bit division; logs: t·Q(ln t) closed form), cumulative magnitude W_j = |k0.y| + Σ_{l<=j}(M_l(left_l)+M_l(right_l)), tolerance 160(j+1)u·W_j (+1e-12·W_j for quartic pieces). Clauses: (1) same number of pieces, every end bit-identical; (2) first piece passes through k0; (3) adjacent pieces agree at every interior breakpoint; (4) every piece is an antiderivative of its integrand (F_i(b)-F_i(a) vs exact); (5) when k0.x < e_0: Piecewise::evaluate(t) = k0.y + ∫_{k0.x}^t f summed exactly over the pieces crossed; (6) indefinite(): first piece bit-identical to segments[0].indefinite(), clauses 1,3,4 again, empty input gives empty output; (7) integral_iter (by value) and integral_iter_ref yield bit-identical pieces equal to Piecewise::integral. Non-trivial: >=3 pieces and (k0.x strictly inside the first piece or an evaluation >= 2 breakpoints away from k0.x).".into()
+        "case = (piece type: Poly0..Poly7 or Log<Poly0..Poly8> (type is part of the case), 1..=L pieces (L=8 quick, 24 thorough) with ends from positive lattices (duplicates, ends one ulp apart; shifted by 0/-1/-2.5 for polynomial pieces so that ends straddle 0), piece j's coefficients = pool of moderate numbers rotated by 3j, pool and k0.y times a common power of two (1 in 70% of cases, else 2^k with k uniform in ±250); all abscissae (ends, k0.x, evaluation points) times a common power of two 2^k (k in -100..40, 1 case in 5); 1 case in 6 has an OPEN-ENDED last piece (end = +inf, f64::MAX or 1e200); knot k0 with x strictly inside the first piece / exactly at its end / beyond it (>0 for logs), y any; evaluation points from the list's alphabet: at every end, one ulp either side, midpoints, beyond both extremes). Oracle: per-piece exact integrals (polynomials: exact dyadic powers, 384-bit division; logs: t·Q(ln t) closed form), cumulative magnitude W_j = |k0.y| + Σ_{l<=j}(M_l(left_l)+M_l(right_l)), tolerance 160(j+1)u·W_j (+1e-12·W_j for quartic pieces). Clauses: (1) same number of pieces, every end bit-identical; (2) first piece passes through k0; (3) adjacent pieces agree at every interior breakpoint; (4) every piece is an antiderivative of its integrand (F_i(b)-F_i(a) vs exact); (5) when k0.x < e_0: Piecewise::evaluate(t) = k0.y + ∫_{k0.x}^t f summed exactly over the pieces crossed; (6) indefinite(): first piece bit-identical to segments[0].indefinite(), clauses 1,3,4 again, empty input gives empty output; (7) integral_iter (by value) and integral_iter_ref yield bit-identical pieces equal to Piecewise::integral, also when fed through iterator adaptors (filter / skip_while that keep everything; their size_hint lower bound is 0). Non-trivial: >=3 pieces and (k0.x strictly inside the first piece or an evaluation >= 2 breakpoints away from k0.x).".into()
     }
     fn cases(&self, tier: Tier) -> u64 {
         tier.pick(80_000, 2_000_000)
@@ -141,8 +146,9 @@ impl Prop for C11 {
             gen::moderate(20),
             vec(any::<u16>(), 4..10),
             gen::common_scale(250),
+            (prop_oneof![4 => Just(1.0), 1 => (-100i32..=40).prop_map(|k| ppv_exact::pow2_f64(k as i64))], 0u8..18),
         )
-            .prop_map(|((fam, deg0, shift, kclass, kfrac), ends0, pool, ky, qs, sc)| {
+            .prop_map(|((fam, deg0, shift, kclass, kfrac), ends0, pool, ky, qs, sc, (xsc, open))| {
                 let pool: Vec<f64> = pool.into_iter().map(|v| v * sc).collect();
                 let ky = ky * sc;
                 let deg = if fam == 0 { deg0 % 8 } else { deg0 };
@@ -168,7 +174,14 @@ impl Prop for C11 {
                 };
                 let mut alpha = gen::alphabet(&ends, &[kx], false);
                 alpha.retain(|t| t.is_finite() && t.abs() < 100.0 && (fam == 0 || *t > 1e-3));
-                let ts: Vec<f64> = qs.iter().map(|&q| alpha[idx(q, alpha.len())]).collect();
+                let ts: Vec<f64> = qs.iter().map(|&q| alpha[idx(q, alpha.len())] * xsc).collect();
+                // common abscissa scale (exact power of two) and, 1 case in 6, an open-ended last piece
+                let mut ends: Vec<f64> = ends.iter().map(|e| e * xsc).collect();
+                let kx = kx * xsc;
+                if open < 3 {
+                    let n = ends.len();
+                    ends[n - 1] = [f64::INFINITY, f64::MAX, 1e200][open as usize];
+                }
                 Case { fam, deg, ends: ends.into_iter().map(B).collect(), pool: pool.into_iter().map(B).collect(), kx: B(kx), ky: B(ky), ts: ts.into_iter().map(B).collect() }
             })
             .boxed()
@@ -185,7 +198,8 @@ impl Prop for C11 {
         if n == 0
             || pool.len() < 9
             || pool.iter().any(|v| !v.is_finite())
-            || ends.iter().any(|e| !e.is_finite())
+            || ends[..n.saturating_sub(1)].iter().any(|e| !e.is_finite())
+            || ends[n.saturating_sub(1)..].iter().any(|e| e.is_nan() || *e == f64::NEG_INFINITY)
             || ends.windows(2).any(|w| !(w[0] <= w[1]))
             || !kx.is_finite()
             || !ky.is_finite()
@@ -200,12 +214,23 @@ impl Prop for C11 {
         let quartic = log && deg == 4;
         // piece queries: (piece, left), (piece, right), (piece, a), (piece, b)
         let left = |i: usize| if i == 0 { kx } else { ends[i - 1] };
+        #[allow(unused_mut)]
         let mut pq: Vec<(usize, f64)> = Vec::new();
         for i in 0..n {
             pq.push((i, left(i)));
             pq.push((i, ends[i]));
             pq.push((i, ts[i % ts.len()]));
             pq.push((i, ts[(i + 1) % ts.len()]));
+        }
+        // an open-ended last piece (end = +inf / MAX / 1e200): F_last(end) is never needed by anybody
+        let open_last = !(ends[n - 1].abs() <= 1e100);
+        if open_last {
+            ctx.label("open-ended last piece");
+            let l = pq.len();
+            pq[l - 3].1 = left(n - 1);
+            if n == 1 && !(kx.abs() <= 1e100) {
+                return Outcome::Skip("malformed case");
+            }
         }
         let k0 = Knot::new(kx, ky);
         let obs = if log { dispatch_deg!(deg, obs_log(&ends, &pool, k0, &pq, &ts)) } else { dispatch_deg7!(deg, obs_poly(&ends, &pool, k0, &pq, &ts)) };
@@ -228,10 +253,12 @@ impl Prop for C11 {
         let mut acc_int = d(ky).abs();
         let mut acc_ind = Dy::zero();
         for i in 0..n {
-            let m = pieces[i].maj(left(i)).add(&pieces[i].maj(ends[i]));
+            let right_needed = !(open_last && i == n - 1);
+            let mr = if right_needed { pieces[i].maj(ends[i]) } else { Dy::zero() };
+            let m = pieces[i].maj(left(i)).add(&mr);
             acc_int = acc_int.add(&m);
             // indefinite(): piece 0 has constant 0 and no left point
-            acc_ind = acc_ind.add(&if i == 0 { pieces[0].maj(ends[0]) } else { m });
+            acc_ind = acc_ind.add(&if i == 0 { mr.clone() } else { m });
             if !in_range(&acc_int, 800) {
                 return Outcome::Skip("a magnitude is outside 2^±800");
             }
@@ -253,6 +280,9 @@ impl Prop for C11 {
         }
         if obs.iter_owned != obs.iter_ref || obs.iter_owned.len() != n || !obs.iter_owned.iter().zip(&obs.int_flat).all(|(a, b)| bits_eq(a, b)) || !obs.iter_ref.iter().zip(&obs.int_flat).all(|(a, b)| bits_eq(a, b)) {
             fail!("{tyname}: integral_iter (by value) {:?}, integral_iter_ref {:?} and Piecewise::integral {:?} do not yield identical pieces", obs.iter_owned, obs.iter_ref, obs.int_flat);
+        }
+        if obs.iter_owned_adapted != obs.iter_owned || obs.iter_ref_adapted != obs.iter_ref {
+            fail!("{tyname}: integral_iter / integral_iter_ref fed through an iterator adaptor (filter / skip_while that keep everything) yield {:?} / {:?} instead of {:?}", obs.iter_owned_adapted, obs.iter_ref_adapted, obs.iter_owned);
         }
         if !crate::model::nums_eq(&obs.ind_flat[0], &obs.seg0_indef_flat) {
             fail!("{tyname}.indefinite(): first piece {:?} is not segments[0].indefinite() = {:?}", obs.ind_flat[0], obs.seg0_indef_flat);
